@@ -79,6 +79,7 @@ PROP['theorems'] = PROP['theorems'] + [
     'Fit.C08.C08_go2lean_window',
     'Fit.C08.C08_go2lean_clamp',
     'Fit.C08.C08_go2lean_reset',
+    'Fit.C08.C08_go2lean_oldsize',
     'Fit.C08.C08_go2lean_readN_recomposed']
 PROP['trusted_base'] = PROP['trusted_base'] + [
     "translators/go2lean (Go→Lean for a small subset of Go, notes/go2lean.md, notes/go2lean-add-r.md) re-translates the index arithmetic of decoder/readbuffer.go from the current source on every run: the statement runs of readBuffer.ReadN around the io.ReadAtLeast call (remaining, the cursor of the refill, b.cur / b.last after it, b.cur += n), its two conditions, the bounds of all four slice expressions of b.buf, the minimum handed to io.ReadAtLeast, and of readBuffer.Reset the clamp of size, the grow condition, the allocated and the re-sliced length (items selected structurally: function + assigned variable, or call / sliced operand + occurrence number); the agreement theorems *_go2lean_* state that each translated piece equals the corresponding piece of Fit.ReadBuffer.RB.readN / RB.reset for all arguments; and C08_go2lean_readN_recomposed states that ReadN re-assembled from the translated pieces in the order of the Go text (Fit.Go2Lean.readNGo, hand-written glue of 25 lines in FitProps/Go2LeanReadBuffer.lean) is RB.readN for every state with cur ≤ last ≤ len ≤ cap; NOT translated (outside the subset; taken from the model in readNGo, tied by the correspondence families only): the calls copy, io.ReadAtLeast, make, cap themselves, Go's slice-bounds rule and the control flow between the pieces; trusted: the translator's rendering of the subset (go/types computes constants and types) and FitModel/GoPrelude.lean"]
